@@ -350,7 +350,15 @@ fn check_reads<I: Idx>(which: &str, idx: &I, model: &Model, lookups: &[u32], rou
    let ctx = format!("round {} {} of {}", round, which, std::any::type_name::<I>().rsplit("::").next().unwrap_or(""));
    for (path, got) in [("iter_all", idx.all()), ("c_iter_all", idx.c_all())] {
       let got = norm_vec(kind, got).map_err(|e| bad("iteration-duplicate", format!("{}: {} {}", ctx, path, e)))?;
-      if got != want {
+      if kind == Kind::Full {
+         // map semantics: every key exactly once, holding one of the values written for it (which
+         // one survives a merge of two sides that both hold the key is not specified)
+         let keys_ok = got.keys().eq(want.keys());
+         let vals_ok = got.iter().all(|(k, v)| v.len() == 1 && want.get(k).map_or(false, |c| c.contains(&v[0])));
+         if !keys_ok || !vals_ok {
+            return Err(bad("multimap-mismatch", format!("{}: {} returned {:?}, model (candidate values per key) has {:?}", ctx, path, got, want)));
+         }
+      } else if got != want {
          return Err(bad("multimap-mismatch", format!("{}: {} returned {:?}, model has {:?}", ctx, path, got, want)));
       }
    }
@@ -369,7 +377,8 @@ fn check_reads<I: Idx>(which: &str, idx: &I, model: &Model, lookups: &[u32], rou
                return Err(bad("iteration-duplicate", format!("{}: {}({}) returned a set element twice", ctx, path, k)));
             }
          }
-         if g != w {
+         let ok = if kind == Kind::Full { (w.is_empty() && g.is_empty()) || (g.len() == 1 && w.contains(&g[0])) } else { g == w };
+         if !ok {
             return Err(bad("multimap-mismatch", format!("{}: {}({}) returned {:?}, model has {:?}", ctx, path, k, g, w)));
          }
       }
@@ -394,6 +403,35 @@ fn check_combined<I: Idx>(total: &I, delta: &I, mt: &Model, md: &Model, lookups:
    }
    let want = norm(if kind == Kind::Set { Kind::Multi } else { kind }, &union);
    let ctx = format!("round {} combined(total, delta)", round);
+   if kind == Kind::Full {
+      // per key: one value per side that holds the key, each among that key's candidates
+      let sides = |k: u32| mt.get(&k).map_or(0, |v| !v.is_empty() as usize) + md.get(&k).map_or(0, |v| !v.is_empty() as usize);
+      for (path, got) in [("iter_all", I::comb_all(total, delta)), ("c_iter_all", I::comb_c_all(total, delta))] {
+         let mut m: Model = BTreeMap::new();
+         for (k, vs) in got {
+            m.entry(k).or_default().extend(vs);
+         }
+         m.retain(|_, v| !v.is_empty());
+         let ok = m.keys().eq(want.keys()) && m.iter().all(|(k, v)| v.len() == sides(*k) && v.iter().all(|x| want[k].contains(x)));
+         if !ok {
+            return Err(bad("multimap-mismatch", format!("{}: {} returned {:?}, model (candidates) has {:?}", ctx, path, m, want)));
+         }
+      }
+      for k in lookups.iter().cloned().chain(want.keys().take(3).cloned()) {
+         let w = want.get(&k).cloned().unwrap_or_default();
+         for (path, got) in [("index_get", I::comb_get(total, delta, k)), ("c_index_get", I::comb_c_get(total, delta, k))] {
+            let g = got.unwrap_or_default();
+            if g.len() != sides(k) || !g.iter().all(|x| w.contains(x)) {
+               return Err(bad("multimap-mismatch", format!("{}: {}({}) returned {:?}, model (candidates) has {:?}", ctx, path, k, g, w)));
+            }
+         }
+      }
+      let (_, e) = I::comb_len_empty(total, delta);
+      if e && !want.is_empty() {
+         return Err(bad("multimap-mismatch", format!("{}: is_empty() claims definitely empty", ctx)));
+      }
+      return Ok(());
+   }
    for (path, got) in [("iter_all", I::comb_all(total, delta)), ("c_iter_all", I::comb_c_all(total, delta))] {
       // the combined view chains the two halves: a key may legitimately appear once per half
       let mut m: Model = BTreeMap::new();
@@ -562,11 +600,8 @@ fn run_typed<I: Idx + 'static>(sc: &IndexScenario) -> Result<(), Violation> {
          pool.install(|| I::merge(&mut new, &mut delta, &mut total));
          // total = total (+) delta ; delta = new ; new = {}
          for (k, v) in std::mem::take(&mut m_delta) {
-            if kind == Kind::Full {
-               m_total.insert(k, v);
-            } else {
-               m_total.entry(k).or_default().extend(v);
-            }
+            // (full index: a key held by both sides keeps one of the two values: candidates)
+            m_total.entry(k).or_default().extend(v);
          }
          m_delta = std::mem::take(&mut m_new);
       }
@@ -615,6 +650,7 @@ pub fn gen_scenario(rng: &mut vcorpus::val::Rng, thorough: bool) -> IndexScenari
    let n_keys = rng.range(1, 6) as u32;
    let mut next_val = 100u32;
    let mut fresh_key = 1000u32;
+   let overlap = rng.chance(250);
    let n_rounds = rng.range(2, if thorough { 5 } else { 4 });
    let mut rounds = vec![];
    for round_no in 0..n_rounds as u32 {
@@ -626,7 +662,10 @@ pub fn gen_scenario(rng: &mut vcorpus::val::Rng, thorough: bool) -> IndexScenari
       for _ in 0..rng.below(pre_max) {
          next_val += 1;
          // for the full index every non-racing key is unique (as rows are in generated code)
-         let k = if kind_full {
+         let k = if kind_full && overlap {
+            // the same few keys go to new, delta and total: the merge sees a key on both sides
+            900 + rng.below(4) as u32
+         } else if kind_full {
             fresh_key += 1;
             fresh_key
          } else {
